@@ -362,12 +362,15 @@ def async_wd_sequences(rt, slack):
     q = rt + slack
     grid = [0, 1, rt - 1, rt, rt + 1, q - 1, q, q + 1, 2 * rt, INF]
     seqs = []
-    for lats in itertools.product(grid, repeat=3):
+    # + every probe of a longer run answered with one and the same small latency (below, at and above the timer slack)
+    steady = [(lat,) * 6 for lat in sorted({1, slack // 2, slack - 1, slack, slack + 1, slack + slack // 2, 2 * slack - 1,
+                                            2 * slack, 3 * slack}) if 0 < lat < rt]
+    for lats in list(itertools.product(grid, repeat=3)) + steady:
         marks = []                     # (time, kind)
         for k, lat in enumerate(lats):
             if lat < INF:
                 marks.append((q * (k + 1) + lat, 0, "ans"))
-        for k in range(1, 8):
+        for k in range(1, 8 if len(lats) == 3 else 2 * len(lats) + 2):
             marks.append((q * k, 1, "timer"))
         marks.sort()
         seq, now = ["ok"], 0
